@@ -442,7 +442,7 @@ impl Player {
 
     fn collect_slots(ops: &[Value], out: &mut BTreeSet<u64>) {
         for o in ops {
-            if o["op"] == "sstore" || o["op"] == "ret" {
+            if o["op"] == "sstore" || o["op"] == "ret" || o["op"] == "number" {
                 out.insert(o["s"].as_u64().unwrap_or(0));
             }
             if let Some(inner) = o["ops"].as_array() {
